@@ -107,6 +107,9 @@ package analysis
 
 //@ spec func rowsOK(d ast.Decl, arity int) bool = forall i int :: 0 <= i && i < len(d.Bounds) ==> len(d.Bounds[i].Bounds) == arity
 
+// Every mode descriptor lists one mode per argument (rule checking indexes modes by argument position).
+//@ spec func modesOK(d ast.Decl) bool = forall j int :: 0 <= j && j < len(d.Descr) && d.Descr[j].Predicate.Symbol == ast.DescrMode ==> len(d.Descr[j].Args) == len(d.DeclaredAtom.Args)
+
 //@ func (c *declChecker) checkBound(p, boundDecl)
 //@   requires c != nil
 //@   modifies c.errs
@@ -119,11 +122,17 @@ package analysis
 //@   loop 1 invariant c.errs == nil || len(c.errs) >= 1
 //@   modifies c.errs
 //@   ensures len(result) == 0 ==> rowsOK(c.decl, len(c.decl.DeclaredAtom.Args))
+//@   ensures len(result) == 0 ==> modesOK(c.decl)
+//@   loop 2 invariant p == c.decl.DeclaredAtom && (len(c.errs) == 0 ==> (forall j int :: 0 <= j && j < rangeindex#2 + 1 && c.decl.Descr[j].Predicate.Symbol == ast.DescrMode ==> len(c.decl.Descr[j].Args) == len(p.Args)))
+//@   loop 3 invariant p == c.decl.DeclaredAtom && (len(c.errs) == 0 ==> (forall j int :: 0 <= j && j < rangeindex#2 && c.decl.Descr[j].Predicate.Symbol == ast.DescrMode ==> len(c.decl.Descr[j].Args) == len(p.Args)))
+//@   loop 4 invariant p == c.decl.DeclaredAtom && (len(c.errs) == 0 ==> (forall j int :: 0 <= j && j < rangeindex#2 && c.decl.Descr[j].Predicate.Symbol == ast.DescrMode ==> len(c.decl.Descr[j].Args) == len(p.Args)))
 //@   loop 5 invariant p == c.decl.DeclaredAtom && (len(c.errs) == 0 ==> (forall k int :: 0 <= k && k < rangeindex#5 + 1 ==> len(c.decl.Bounds[k].Bounds) == len(p.Args)))
+//@   loop 5 invariant len(c.errs) == 0 ==> modesOK(c.decl)
 
 //@ func CheckDecl(decl)
 //@   modifies nothing
 //@   ensures len(result) == 0 ==> rowsOK(decl, len(decl.DeclaredAtom.Args))
+//@   ensures len(result) == 0 ==> modesOK(decl)
 
 // Every declaration handed to the desugaring step has passed the context-free check (one bound per argument in
 // every row) - the precondition that keeps desugarOneDecl's indexing in range. Predicates supplied by the caller
